@@ -432,6 +432,20 @@ def main(argv):
         "wall_s": round(wall, 2),
         "violations": violations,
     }
+    # closed-world BFS runs (editor --bfs): the check as a whole stays `exhaustive: false` (it also has sampled runs); the
+    # configurations whose exploration CLOSED on this run are exhaustive ties (Props/EditorTie.lean) and are listed here
+    bfs_closed = sorted(k.split(".bfs.", 1)[1][:-len(".closed")] for k, v in a["stats"].items()
+                        if ".bfs." in k and k.endswith(".closed") and v == 1)
+    bfs_open = sorted(k.split(".bfs.", 1)[1][:-len(".closed")] for k, v in a["stats"].items()
+                      if ".bfs." in k and k.endswith(".closed") and v == 0)
+    if bfs_closed or bfs_open:
+        ev["coverage"]["exhaustive_closed_worlds"] = {
+            "exhaustive": bfs_closed, "not_closed_within_budget": bfs_open,
+            "states": {c: a["stats"].get(f"editor-bfs.bfs.{c}.states") for c in bfs_closed + bfs_open},
+            "transitions": {c: a["stats"].get(f"editor-bfs.bfs.{c}.transitions") for c in bfs_closed + bfs_open},
+            "meaning": "for each configuration under `exhaustive` every (reachable state, operation of its alphabet) transition of the "
+                       "REAL editor was recorded and recomputed by the model and the work list ran empty; with 0 diffs in scope "
+                       "EditorTie.editor_tie_lift gives agreement on every operation list of any length over that alphabet"}
     if tier == "thorough" and lb["proof_ok"] and cfg.get("leanchecker", True):
         rc, out, dt = sh(["lake", "env", "leanchecker"] + cfg.get("lean_targets", []), cwd=LEAN, timeout=3600)
         ev["coverage"]["leanchecker"] = f"rc={rc} {dt:.0f}s"
